@@ -219,6 +219,18 @@ std::string call_any(unsigned s, int init, int arg)
   return usigs[s] ? call_str(*usigs[s], init, arg) : call_str(*psigs[s], init, arg);
 }
 
+std::string unreg_saw;
+
+// what every live signal would invoke right now (used from inside an unregister function)
+std::string sig_calls()
+{
+  std::string r;
+  for (unsigned s = 0; s < max_lists; ++s)
+    if (sig_live(s))
+      r += (r.empty() ? "S" : ",S") + std::to_string(s) + "=" + call_any(s, 1, 2);
+  return r.empty() ? "-" : r;
+}
+
 std::string sig_dump()
 {
   std::string r;
@@ -365,7 +377,12 @@ std::string handle(std::vector<std::string> const &t)
     if (conns[a] || !usigs[b])
       return "bad-op";
     conns[a].emplace(usigs[b]->connect(
-        usig_t::function{make_callback(static_cast<int>(c))}, fcppt::signal::unregister::function{[d] { ++unreg_count[d]; }}));
+        usig_t::function{make_callback(static_cast<int>(c))}, fcppt::signal::unregister::function{[d]
+                                            {
+                                              ++unreg_count[d];
+                                              // the dying connection must already be out of every signal
+                                              unreg_saw = sig_calls();
+                                            }}));
     return "ok" + sig_dump();
   }
   if (o == "PC" && t.size() == 4 && num(t[1], max_elems, a) && num(t[2], max_lists, b) && num(t[3], 100, c))
@@ -379,8 +396,9 @@ std::string handle(std::vector<std::string> const &t)
   {
     if (!conns[a])
       return "bad-op";
+    unreg_saw = "-";
     conns[a].reset();
-    return "ok" + sig_dump();
+    return "ok" + sig_dump() + " saw=" + unreg_saw;
   }
   if (o == "SM" && t.size() == 3 && num(t[1], max_lists, a) && num(t[2], max_lists, b))
   {
